@@ -138,6 +138,10 @@ RULE = ("all schedules of the shared engine program catalog incl. resumed runs a
         "execution canon(live runner state) is compared with canon(rebuild_state_from_ticks(init_state, recorded "
         "ticks)) (timestamps masked) and with ctx.to_dict(); non-trivial = at least one deviation from the default "
         "schedule")
+from vmc.tables import _ROUND7 as _R7  # noqa: E402
+
+RULE += _R7["C11"]
+
 
 
 def programs(tier: str) -> list[Any]:
